@@ -118,7 +118,7 @@ impl Property for C13 {
         "C13"
     }
     fn rule(&self) -> &'static str {
-        "proptest single cases: sender (account with exact authorisation / none / authorisation for another payload / another account's authorisation; none, right after the account consumed an inbound message of its own in the same ledger; probe contract calling as itself / naming an account; the gateway's own address, its owner or its operator named as sender with nobody signing; the shipped example app sending for an account with / without that account's authorisation), gateway in its ordinary state or upgraded-but-not-migrated, with 1-3 initial signer sets, retention 0-2 and 0-3 earlier rotations (so that signer history inside and outside the window exists), destination chain and address strings (empty, ASCII up to 300 bytes, multi-byte UTF-8, invalid UTF-8, up to 12 KB long), payload lengths around the Keccak rate (0,1,31,32,33,135,136,137,271..273,...) up to 64 KiB with case-seeded content. Oracle: success iff the sender authorised (or is the calling contract); then exactly one event by the gateway with topics (contract_called, sender, chain, address, own Keccak-256(payload)) and data = payload, and the gateway's own ledger entries unchanged; otherwise failure, no event, full snapshot equality. non-trivial = every case (the suite has one sample); distinct by Debug hash of the whole case. One case in six is an entry-point sweep: the exported functions of all seven shipped contracts are read from the sources of the tree under test (entry points absent from the inventory taken at the pinned commit get 300 deterministic cases each and half of the random ones), one is called on a fully deployed system (gateway, gas service, operators, token service with a deployed token, stand-alone token, upgrader, example app; some contracts optionally upgraded-but-not-migrated) with arguments drawn from pools of the system's principals, contracts, tokens, names, ids and boundary amounts, every require_auth satisfied by the host's mock and recorded; oracle: every contract_called event of the gateway names a sender that is among the recorded signers or is the called contract itself (cases where the mock let a contract sign are discarded); non-trivial = the call succeeded"
+        "proptest single cases: sender (account with exact authorisation / none / authorisation for another payload / another account's authorisation; none, right after the account consumed an inbound message of its own in the same ledger; probe contract calling as itself / naming an account; the gateway's own address, its owner or its operator named as sender with nobody signing; the shipped example app sending for an account with / without that account's authorisation), gateway in its ordinary state or upgraded-but-not-migrated, with 1-3 initial signer sets, retention 0-2 and 0-3 earlier rotations (so that signer history inside and outside the window exists), destination chain and address strings (empty, ASCII up to 300 bytes, multi-byte UTF-8, invalid UTF-8, up to 12 KB long), payload lengths around the Keccak rate (0,1,31,32,33,135,136,137,271..273,...) up to 64 KiB with case-seeded content. Oracle: success iff the sender authorised (or is the calling contract); then exactly one event by the gateway with topics (contract_called, sender, chain, address, own Keccak-256(payload)) and data = payload, and the gateway's own ledger entries unchanged; otherwise failure, no event, full snapshot equality. non-trivial = every case (the suite has one sample); distinct by Debug hash of the whole case. One case in six is an entry-point sweep: the exported functions of all seven shipped contracts are read from the sources of the tree under test (entry points absent from the inventory taken at the pinned commit get 300 deterministic cases each and half of the random ones), one is called on a fully deployed system (gateway, gas service, operators, token service with a deployed token, stand-alone token, upgrader, example app; some contracts optionally upgraded-but-not-migrated) with arguments drawn from pools of the system's principals, contracts, tokens, names, ids and boundary amounts, every require_auth satisfied by the host's mock and recorded; oracle: every contract_called event of the gateway names a sender that is among the recorded signers or is the called contract itself (cases where the mock let a contract sign are discarded); non-trivial = the call succeeded Since round 12 destination and chain strings also include the string forms of the sender, the probe contract, the gateway and the example app, and 'address = chain'."
     }
     fn cases(&self, tier: Tier) -> u64 {
         tier.pick(20000, 200000)
